@@ -39,7 +39,13 @@ def gen_cases(tier, seed):
                 a = gg[int(rng.integers(len(gg)))]
                 c.update(L=a[0], k=a[1], s=a[2], p=a[3], d=a[4], N=int(rng.integers(1, 3)), C=int(rng.integers(1, 3)), cout=int(rng.integers(1, 3)),
                          bias=bool(rng.integers(2)))
-            elif ident in ("mean",):
+            if ident in ("conv2d", "conv1d", "maxpool2d", "avgpool2d", "maxpool1d", "avgpool1d") and r % 12 == 7:
+                # a batch / channel count just above a power of two (work done in blocks: the last, partial block), small spatial extents
+                c["N"] = [129, 200, 257, 65, 130][(r // 12) % 5]
+                if ident in ("conv2d", "conv1d") and (r // 12) % 2:
+                    c["N"], c["C"] = 2, [65, 130][(r // 24) % 2]
+                c["size_class"] = "many-samples-or-channels"
+            if ident in ("mean",):
                 shp = [int(v) for v in rng.integers(1, 4, int(rng.integers(1, 5)))]
                 rr = len(shp)
                 ch = int(rng.integers(3))
@@ -126,6 +132,15 @@ def run_case(ns, mon, c):
                 res.append(("value", f"values differ by {float(np.max(np.abs(x_.data - y_.data))):.3g}"))
         if res:
             return res, nel
+        if c["seed"] % 2 == 0:
+            # before anything is differentiated, both forms are called once more on other values of the same shapes (the next batch, the second
+            # tower): what the first calls saved for their backward is theirs
+            try:
+                with np.errstate(all="ignore"):
+                    others_ = [T(np.array(a, dtype=np.float64) * -0.7 + 0.9) for a in arrs]
+                    fa(*others_); fb(*[T(o_.data.copy()) for o_ in others_])
+            except Exception:
+                pass
         # each side is differentiated through those of its results that are differentiable (a result that only depends on operands not requiring
         # grad may carry the flag on one side and not on the other - stack/unbind - without any gradient being different)
         pairs_ = list(zip(oa, ob))
